@@ -114,9 +114,15 @@ def _c17_reparent_mark(v):
 @predicate("C18-payload-placed-outside-isolating")
 def _c18_leak(v):
     m = v["mech"]
-    return v["oracle"] == "leaked" and m.get("delete_family") is False and m.get("has_payload") is True \
-        and m.get("old_outside_tokens_preserved_in_order") is True \
-        and m.get("inner_replace_range_outside_isolating_node") is not True
+    if not (m.get("delete_family") is False and m.get("has_payload") is True
+            and m.get("old_outside_tokens_preserved_in_order") is True
+            and m.get("inner_replace_range_outside_isolating_node") is not True):
+        return False
+    # "node-split": the same placement outside seen from the node's side (content put next to
+    # the node with the rest of the node's content continuing in it, or put in front of it with
+    # equal leading tokens).  The slice side of the fitter, which does have a guard, is judged
+    # separately (oracle slice-isolating-node-opened) and never matches here.
+    return v["oracle"] in ("leaked", "node-split")
 
 
 @predicate("C11-slice-node-open-on-both-sides")
